@@ -393,10 +393,15 @@ def run(tier, seed):
     with ProcessPoolExecutor(max_workers=check.NPROC, mp_context=ctx) as ex:
         futs = [ex.submit(_worker, (seed0 + i, tier)) for i in range(n)]
         wall = float(os.environ.get("PROVSIM_WALL", wall))
+        capped = False
         for f in futs:
-            if time.time() - t0 > wall and f.cancel():
+            if time.time() - t0 > wall and not capped:
+                capped = True  # wall cap reached: everything not yet started is dropped (never a pass/fail)
+                for g in reversed(futs):
+                    g.cancel()
+            if f.cancelled():
                 agg["not_run_wall_cap"] = agg.get("not_run_wall_cap", 0) + 1
-                continue  # wall cap reached: states not yet started are dropped, never a pass/fail
+                continue
             try:
                 st = f.result(timeout=max(5.0, wall * 3 - (time.time() - t0)))
             except Exception as e:
